@@ -181,8 +181,10 @@ def run(tier, replay=None):
         muts = []
         for rule in mutate.OPERATORS:
             n = per_rule if rule not in LATE or tier == 'quick' else per_rule // 2
-            if rule in ('enum-and', 'flag-equals', 'missing-enumerator', 'unknown-type', 'if-vars'):
-                n = max(n, 20)   # their variants carry the statement context (top / if / else-if / else / optional / nested-*): each at least once
+            if rule in ('enum-and', 'flag-equals', 'missing-enumerator', 'unknown-type', 'if-vars', 'opcode-mismatch'):
+                n = max(n, 20)
+            if rule == 'upcast-unsupported':
+                n = max(n, 28)   # one variant per built-in type   # their variants carry the statement context (top / if / else-if / else / optional / nested-*): each at least once
             muts += mutate.select(tree, facts, rule, n, common.seed(), sel_stats)
         for i, m in enumerate(muts):
             m['id'] = f'm{i:04d}'
